@@ -53,7 +53,7 @@ RULE = (
     ">= 0 and solved_by == class name. Non-trivial: some state offered >=2 "
     "available operations with different criterion values."
 )
-BUDGET = {"quick": 1500, "thorough": 4000}
+BUDGET = {"quick": 1500, "thorough": 10000}
 ASSUMPTIONS = [
     "termination is decided by a step bound (num_operations solver steps), not wall clock",
     "random rule / random chooser: membership only",
